@@ -23,10 +23,12 @@ Ctxs(t, inh, ro) ==
                     [] OTHER -> "none"
       kids == IF t.k = "struct" THEN UNION {Ctxs(t.xs[i], own, ro \/ t.ro[i]) : i \in 1..Len(t.xs)}
               ELSE UNION {Ctxs(t.xs[i], own, ro \/ t.k = "rvaluero") : i \in 1..Len(t.xs)}
-  IN {<<t.id, own>>} \cup kids
+      \* the payload of a panic raised by one of t's methods is printed in place, as an operand under t's declaration
+      pans == UNION {Ctxs(t.pan[i], own, FALSE) : i \in 1..Len(t.pan)}
+  IN {<<t.id, own>>} \cup kids \cup pans
 
 RECURSIVE SubTerms(_)
-SubTerms(t) == {t} \cup UNION {SubTerms(t.xs[i]) : i \in 1..Len(t.xs)}
+SubTerms(t) == {t} \cup UNION {SubTerms(t.xs[i]) : i \in 1..Len(t.xs)} \cup UNION {SubTerms(t.pan[i]) : i \in 1..Len(t.pan)}
 
 CtxMap(ts)  == UNION {Ctxs(ts[i], "none", FALSE) : i \in 1..Len(ts)}
 AllTerms(ts) == UNION {SubTerms(ts[i]) : i \in 1..Len(ts)}
@@ -39,7 +41,7 @@ DeclClass(ts, role, id) ==
   CASE cx = "unsafe" -> "U"
     [] cx = "safe"   -> "S"
     [] OTHER -> IF role \in {"typename", "typefmt", "ifacetype"} \/ t.k = "nil" THEN "S"    \* names and <nil> are structure
-                ELSE IF t.k \in {"rstring", "rbytes"} THEN "S"            \* what a redactable shows outside its own envelopes
+                ELSE IF t.k \in {"rstring", "rbytes"} /\ role # "ptr" THEN "S"      \* what a redactable shows outside its own envelopes (not: its address under %p)
                 ELSE IF role = "ret" /\ t.k = "obj" /\ "SM" \in t.caps /\ "SF" \notin t.caps THEN "S"   \* SafeMessage text
                 ELSE "U"
 TokClass(ts, rt, x) ==
@@ -47,6 +49,8 @@ TokClass(ts, rt, x) ==
   ELSE LET e == rt[x - RTok] IN DeclClass(ts, e.rk, e.id)
 
 HasScripts(ts) == \E t \in AllTerms(ts) : t.scr # <<>> \/ t.fscr # <<>>
+\* every payload of the case is made of opaque tokens (the C05 equation speaks about renderings, not about literal bytes)
+TokenPure(ts) == \A t \in AllTerms(ts) : \A j \in 1..Len(t.b) : t.b[j] >= PTok
 HasUnsafeWrapper(ts) == \E t \in AllTerms(ts) : t.k = "unsafe"
 
 \* C05: deleting the envelopes leaves all structure and exactly the declared-safe renderings
@@ -74,8 +78,10 @@ C11Holds(k, r) ==
 \* C15 on the slice "errorf"
 RECURSIVE CountW(_)
 CountW(f) == IF f = <<>> THEN 0 ELSE (IF Head(f) = VW THEN 1 ELSE 0) + CountW(Tail(f))
-HoldsError(t) == IsError(t) \/ (t.k \in {"safe", "unsafe"} /\ IsError(t.xs[1]))
-ErrIdOf(t)    == IF t.k \in {"safe", "unsafe"} THEN t.xs[1].id ELSE t.id
+\* the value an operand stands for as far as %w goes: a reflect.Value operand is the value it holds, Safe / Unsafe wrap one
+ErrCarrier(t) == LET u == IF t.k = "rvalue" THEN t.xs[1] ELSE t IN IF u.k \in {"safe", "unsafe"} THEN u.xs[1] ELSE u
+HoldsError(t) == IsError(ErrCarrier(t))
+ErrIdOf(t)    == ErrCarrier(t).id
 \* the operand the single %w directive is applied to, 0 if it is missing / out of range
 WOperand(k) == LET its == ParseFormat(k.f, ArgInfo(k.ts))
                    ws  == SelectSeq(its, LAMBDA it : it.t = "Arg" /\ it.v = VW)
@@ -125,9 +131,10 @@ Check == lvl = 1 =>
   /\ Holds("Restored", ok => (r.ov = "none" /\ ~r.erroring /\ ~r.panicking
                                /\ (c.e \in {"Sprint", "Sprintf", "Errorf", "Sprintln"} => r.bs.mode = MS)))      \* every printArg gave the mode back
   /\ Holds("C05", (ok /\ Slice \in {"cls", "qcls", "dir"} /\ ~HasScripts(c.ts) /\ ~HasUnsafeWrapper(c.ts)) => C05Holds(c, r))
+  /\ Holds("C05", (ok /\ Slice = "rnd" /\ ~HasScripts(c.ts) /\ ~HasUnsafeWrapper(c.ts) /\ TokenPure(c.ts)) => C05Holds(c, r))
   /\ Holds("C06", (ok /\ Slice = "wrap") => C06Holds(c, r))
   /\ Holds("C11", (Slice = "panic") => C11Holds(c, r))
-  /\ Holds("C15", (ok /\ Slice \in {"errorf", "qerrorf"}) => C15Holds(c, r))
+  /\ Holds("C15", (ok /\ Slice \in {"errorf", "qerrorf", "rnd"}) => C15Holds(c, r))
   /\ Holds("C17", (ok /\ Slice = "hook") => C17Holds(c, r))
   /\ (EmitOn => PrintT(ToJson([c |-> c, exc |-> ~ok, out |-> IF ok THEN Out(r) ELSE <<>>, rt |-> r.rt,
                                 calls |-> r.calls, werr |-> r.wrappedErr])))
